@@ -33,3 +33,6 @@ claim('C02', 'deterministic simulation: seeded interleaving x lifetime-history x
 claim('C08', 'deterministic simulation: seeded interleaving x lifetime search, differential (each branch alone) + join model',
       'tee_map with 2-4 branches and the three joins under fresh and reused key slots and on plain observables: each branch re-run alone under the same wrapper and schedule must reproduce its in-tee records; branch outputs ordered by causing input record are joined by a small model and compared with the tee\'s output (values and source event).',
       DIFF_NOTE, 'DESIGN.md 4/C08')
+claim('C13', 'deterministic simulation with fault injection: fault plans (which user-function calls raise) x seeded interleavings x handler, "as if absent" differential + list model',
+      'The user function of map/starmap/filter/scan raises on the (party, ordinal) pairs of a generated fault plan (none, first, last, consecutive, all of a key, random subsets) under K interleaved keys and key-reusing wrappers; at the tap behind the operator exactly one OnErrorMux per failing call in position and everything else as the list model of the non-failing items; ignore/router compared record by record with the same run where the failing items are filtered out in front of the operator; dead-letter order and completion; error.map in place; unhandled error surfaces as on_error with the prefix of the fault-free run.',
+      DIFF_NOTE, 'DESIGN.md 4/C13')
